@@ -31,7 +31,8 @@ class ExplainerCheck(Check):
 
     def gen(self, seed, tier, run_index):
         rng = seeds.run_rng(seed, self.prop, tier, run_index)
-        return gen_explainer_plan(rng, self.prop, self.focus)
+        long = tier == "thorough" and run_index % 25 == 7
+        return gen_explainer_plan(rng, self.prop, self.focus, long=long)
 
     def factory(self, world, plan):
         return [c(world, plan) for c in self.oracle_classes]
